@@ -47,7 +47,7 @@ def St.keyset (st : St) (ks : String) : Option KeySet := (st.keys.find? (·.1 ==
 def St.hub (st : St) (ks : String) (k : KeySet) : Hub :=
   match st.hubs.find? (·.1 == ks) with
   | some (_, h) => h
-  | none => { hashKey := k.hashKey }
+  | none => { hashKey := k.hashKey, blockKey := k.blockKey.getD [] }
 
 def St.setHub (st : St) (ks : String) (h : Hub) : St :=
   { st with hubs := (ks, h) :: st.hubs.filter (·.1 != ks) }
@@ -92,7 +92,7 @@ def step (st : St) (op impl : List String) : St × String × String :=
   | ["mint", kind, ks, now, data, value, lbl] =>
     match parseKind kind, st.keyset ks, toNat? now, parseX data, parseX value with
     | some k, some key, some now, some data, some value =>
-      let m := match encodeId mac key.hashKey k now value with
+      let m := match encodeId mac key.hashKey (key.blockKey.getD []) k now value with
         | some id => "id " ++ encBytes id
         | none => "err"
       -- the judge records what the implementation minted
@@ -113,7 +113,7 @@ def step (st : St) (op impl : List String) : St × String × String :=
   | ["dec", kind, ks, idtok, lbl] =>
     match parseKind kind, st.keyset ks, decBytes idtok with
     | some k, some key, some id =>
-      let r := decodeId mac key.hashKey (st.open_ ks key) k 0 id
+      let r := decodeId mac key.hashKey (key.blockKey.getD []) (st.open_ ks key) k 0 id
       let v := match parseImplDec impl with
         | some i => if st.labels.contains lbl then st.judge.observeDecode key.hashKey (key.blockKey.getD []) k id i else "na"
         | none => "na"
